@@ -38,7 +38,7 @@ def classify(run, case, impl, model):
         p = o.split(":")
         return p[0] + ("/" + p[1] if p[0] == "err" and len(p) > 1 else "")
 
-    if op == "decode":
+    if op in ("decode", "decodex"):
         fi, fm = impl.split(), model.split()
         for a, b in zip(fi, fm):
             if a != b:
@@ -47,9 +47,9 @@ def classify(run, case, impl, model):
                     pa, pb = a.split(":"), b.split(":")
                     d = [str(i) for i in range(min(len(pa), len(pb))) if pa[i] != pb[i]]
                     fa = [x for x in pa if x in ("A0", "A1", "c0", "c1")]
-                    return "decode/impl=%s/model=%s/field=%s/%s" % (k(a), k(b), "+".join(d), "".join(fa))
-                return "decode/impl=%s/model=%s" % (k(a), k(b))
-        return "decode/length"
+                    return "%s/impl=%s/model=%s/field=%s/%s" % (op, k(a), k(b), "+".join(d), "".join(fa))
+                return "%s/impl=%s/model=%s" % (op, k(a), k(b))
+        return op + "/length"
     fi, fm = impl.split(), model.split()
 
     def k2(f):
@@ -85,14 +85,15 @@ LEVEL_TEXT = ("Proof: for all message lists, all chunkings of the byte stream, w
               "most 512 segments and never panics, also over whole Decode/ReuseBuffer histories; Unmarshal(Marshal x)=x, "
               "Unmarshal never panics and allocates <= 6 bytes per input byte. Packed paths (composition with C13, for "
               "every bufio oracle): UnmarshalPacked(MarshalPacked x)=x; NewPackedDecoder returns what NewPackedEncoder "
-              "wrote, then io.EOF; a packed stream whose unpacked form ends inside a frame yields an error; a packed "
-              "stream cut inside a packed item never yields io.EOF before an error; all serialisation paths return the "
+              "wrote, then io.EOF; for ANY packed input the decoder returns exactly the whole frames of what packed.Reader "
+              "hands out (fst (unpack_partial P)) and then an error, never io.EOF, when the input does not unpack or ends "
+              "inside a frame; all serialisation paths return the "
               "same segments (all_paths_same_segments). The model is tied to message.go by a differential run on message "
               "sequences, every/random cut points, hostile headers, MaxMessageSize values, reuse histories, chunk sizes "
               "1..17/4096, packed and unpacked, and Size.times by the translator.")
 LEVEL_NOTE = ("Trusted: Coq kernel, extraction, harness; the models are hand-written (coq/Frame/Frame.v, FramePacked.v). "
-              "For a packed stream cut inside a packed item only 'no io.EOF before an error' is proved (C13's "
-              "specification does not constrain the bytes handed out before the error). Two defects found and fixed "
+              "Nothing is proved about Decode calls made after the first outcome that is not a message on the packed path. "
+              "Two defects found and fixed "
               "(Encode accepted unaligned segments; Decode accepted 513 segments); observation O3 (uint32 wrap of the "
               "table index for >= 2^30 segments, unreachable below 4 GiB of input) is stated as a theorem about the model.")
 TECHNIQUE = "Coq proof over an executable model + extracted-model/implementation differential run"
